@@ -355,7 +355,63 @@ def extra(tier, seed, rep):
 _evaluate_case = evaluate
 
 
+def eval_zone(case):
+    """A 64-item literal rule whose only occurrence straddles a plausible chunk size of a long listing (vlib/longlist.py);
+    with `broken` set one instruction of the occurrence is replaced, and the rule must not be found."""
+    from vlib import longlist
+
+    ev = Eval()
+    cut, broken = case["zone_cut"], case.get("broken")
+    NV, start = longlist.zone_listing(cut)
+    if broken is not None:
+        NV[start + broken] = (NV[start + broken][0], "nop", [])
+    pattern = longlist.zone_rules()["long"]
+    text = render(NV)
+    exp = broken is None
+    r_bool = jasm_io.match(jasm_io.make_doc(pattern), text, mode="bool", search="first")
+    r_list = jasm_io.match(jasm_io.make_doc(pattern), text, mode="list", search="all", only_addr=True)
+    ev.subcases = 2
+    for r, what in ((r_bool, "bool"), (r_list, "list")):
+        if r[0] == "inconclusive":
+            ev.inconclusive += 1
+        elif r[0] == "exc":
+            ev.dev("exception", mode=what, zone_cut=cut, error=list(r[1:]))
+    if r_bool[0] == "ok" and r_bool[1] is not exp:
+        ev.dev("verdict", mode="bool", zone_cut=cut, broken=broken, expected=exp, observed=r_bool[1])
+    if r_list[0] == "ok" and r_list[1] != ([NV[start][0]] if exp else []):
+        ev.dev("verdict", mode="list", zone_cut=cut, broken=broken, expected=[NV[start][0]] if exp else [], observed=r_list[1][:3])
+    ev.tags = ["zone-listing"]
+    ev.nontrivial = True
+    ev.keys = [("zone", cut, broken)]
+    return ev
+
+
+def _zone_worker(case):
+    return case, eval_zone(case)
+
+
+_grid_extra = extra
+
+
+def extra(tier, seed, rep):  # noqa: F811
+    import multiprocessing as mp
+    from vlib import longlist
+
+    _grid_extra(tier, seed, rep)
+    todo = []
+    for c in sorted(longlist.CUTS, reverse=True):
+        todo.append({"zone_cut": c})
+        todo.append({"zone_cut": c, "broken": (c + seed) % longlist.ZONE})
+    with mp.get_context("fork").Pool(16, maxtasksperchild=1) as pool:
+        for case, ev in pool.imap_unordered(_zone_worker, todo, chunksize=1):
+            rep.add_eval(case, ev)
+    rep.extra["zone_cuts"] = longlist.CUTS
+    rep.exhaustive_parts.append(f"zone listings: a 64-item rule straddling each of {len(longlist.CUTS)} chunk-size candidates (intact and with one instruction replaced)")
+
+
 def evaluate(case):  # noqa: F811 - replayable grid cases
+    if "zone_cut" in case:
+        return eval_zone(case)
     if case.get("grid"):
         ev = Eval()
         n, bad = _grid_chunk(([[(m if isinstance(m, str) else list(m)[0], [] if isinstance(m, str) else m[list(m)[0]]) for m in case["pattern"]]], [tuple(case["flags"])]))
